@@ -237,9 +237,104 @@ fn c14_systematic() -> Vec<Layout> {
     out
 }
 
+/// positions 0..n at which a prefix / skip probe is generated: all of them for chains of up to 24 steps, for
+/// longer ones the first and last three, every 16th and the neighbours of 10, 32, 64 and 100
+fn probe_positions(n: usize) -> Vec<usize> {
+    if n <= 24 {
+        return (0..n).collect();
+    }
+    let mut v: Vec<usize> = vec![0, 1, 2, 9, 10, 11, 31, 32, 33, 63, 64, 65, 99, 100, 101, n - 3, n - 2, n - 1];
+    v.extend((0..n).step_by(16));
+    v.retain(|k| *k < n);
+    v.sort();
+    v.dedup();
+    v
+}
+
+/// long builder chains: one field per bit (or nibble) of the base, complete / one field missing / two fields
+/// overlapping far down the list; a 64-entry range list naming one bit twice near its end
+fn c14_large() -> Vec<Layout> {
+    let mut v = Vec::new();
+    for (k, l) in sys_many_fields(Access::RW).into_iter().enumerate() {
+        let n = l.fields.len();
+        if k % 2 == 1 && n > 40 {
+            continue; // the top-down twin of the largest ones: once is enough here
+        }
+        v.push(l.clone());
+        // write-only and read-only fields mixed in: the read-only ones leave their bits uncovered
+        let mut m = l.clone();
+        for (j, f) in m.fields.iter_mut().enumerate() {
+            f.access = match j % 5 {
+                0 => Access::W,
+                3 if j == n - 2 => Access::R,
+                _ => Access::RW,
+            };
+        }
+        v.push(m);
+        // read-only and accessor-less fields spread between the writable ones; their bits stay uncovered, so a
+        // builder exists only with a default (added below for every other layout, here for both)
+        let mut m2 = l.clone();
+        for (j, f) in m2.fields.iter_mut().enumerate() {
+            f.access = match j % 5 {
+                1 => Access::R,
+                3 => Access::None,
+                4 => Access::W,
+                _ => Access::RW,
+            };
+        }
+        let mut m2d = m2.clone();
+        m2d.default = Some(DefaultDecl { value: 0, named_const: false, radix: 16, const_name: None });
+        v.push(m2);
+        v.push(m2d);
+        // one field missing: the first, one in the middle, the last
+        for drop in [0usize, n / 2, n - 1] {
+            let mut d = l.clone();
+            d.fields.remove(drop);
+            v.push(d);
+        }
+        // two neighbours far down the list overlapping by one bit (multi-bit fields only)
+        let j = n * 3 / 4;
+        if j + 1 < n && l.fields[j].width() >= 2 && l.fields[j].ranges[0].hi + 1 < l.base_bits && matches!(l.fields[j].ty, FieldTy::UArb { .. } | FieldTy::UNat { .. }) {
+            let mut o = l.clone();
+            let w = o.fields[j].width() + 1;
+            o.fields[j].ranges[0].hi += 1;
+            o.fields[j].ty = uty(w);
+            if layout_verdict(&o) == Verdict::Valid {
+                v.push(o);
+            }
+        }
+    }
+    for l in sys_long_lists().into_iter().step_by(4) {
+        v.push(l.clone());
+        // the same list with its third entry repeated at the end (the type grows by that entry's width)
+        let mut d = l.clone();
+        if let Some(f) = d.fields.iter_mut().find(|f| f.list && f.array.is_none() && f.ranges.len() >= 16) {
+            let extra = f.ranges[2].clone();
+            let w = f.width() + extra.len();
+            if w <= 128 && matches!(f.ty, FieldTy::UArb { .. } | FieldTy::UNat { .. }) {
+                f.ranges.push(extra);
+                f.ty = uty(w);
+                v.push(d);
+            }
+        }
+    }
+    v.extend(sys_deep_nesting(false).into_iter().step_by(2));
+    let mut out = Vec::new();
+    for (k, l) in v.into_iter().enumerate() {
+        if k % 2 == 0 && l.default.is_none() {
+            let mut d = l.clone();
+            d.default = Some(DefaultDecl { value: 1, named_const: false, radix: 10, const_name: None });
+            out.push(d);
+        }
+        out.push(l);
+    }
+    out
+}
+
 fn c14_corpus(tier: Tier, seed: u64) -> Vec<Layout> {
     let n = tier.pick(600usize, 9000usize);
     let mut v = c14_systematic();
+    v.extend(c14_large());
     let mut p = Profile::general();
     p.kinds = [3, 6, 4, 2, 2, 2, 1];
     p.shapes = [5, 3, 2, 1];
@@ -258,6 +353,12 @@ fn c14_corpus(tier: Tier, seed: u64) -> Vec<Layout> {
     p.overlap = true;
     p.base = BaseMode::SmallBias;
     v.extend(sample_choices(seed, 16, n / 3, 320).iter().map(|w| build_layout(&p, w)));
+    // the user's own `#[derive(Default)]` (legal when no `default` is declared) must not make a builder appear
+    for (k, l) in v.iter_mut().enumerate() {
+        if l.default.is_none() && k % 3 == 0 {
+            l.derives |= 1;
+        }
+    }
     v
 }
 
@@ -285,7 +386,7 @@ pub fn run_c14(rc: &RunCtx) -> Outcome {
             probes.push(Probe { name: "full-chain".into(), code: format!("pub fn p_full() -> S {{ {}.build() }}", chain(l, &steps)), must_compile: true, what: "complete in-order chain".into() });
             probes.push(Probe { name: "full-chain-const".into(), code: format!("pub const P_FULL: S = {}.build();", chain(l, &steps)), must_compile: true, what: "complete in-order chain in const context".into() });
             // every proper prefix followed by build()
-            for k in 0..steps.len() {
+            for k in probe_positions(steps.len()) {
                 probes.push(Probe {
                     name: format!("prefix-{}", k),
                     code: format!("pub fn p_prefix{}() -> S {{ {}.build() }}", k, chain(l, &steps[..k])),
@@ -295,7 +396,7 @@ pub fn run_c14(rc: &RunCtx) -> Outcome {
             }
             // exactly one step removed
             if steps.len() >= 2 {
-                for k in 0..steps.len() {
+                for k in probe_positions(steps.len()) {
                     let mut st = steps.clone();
                     st.remove(k);
                     probes.push(Probe {
@@ -473,6 +574,32 @@ pub fn run_c17(rc: &RunCtx) -> Outcome {
             l2.fields.extend(twins);
             layouts.push(l2);
         }
+    }
+    // many fields with the four access forms cycling (field k: r / w / rw / none by k mod 4, shifted per layout),
+    // each with an rw twin; long lists and deeply nested fields in each access form
+    for (j, l) in sys_many_fields(Access::RW).into_iter().enumerate() {
+        if l.fields.len() > 64 && j % 2 == 1 {
+            continue;
+        }
+        let mut l2 = l.clone();
+        let mut twins = Vec::new();
+        for (k, f) in l2.fields.iter_mut().enumerate() {
+            twins.push(Field { name: format!("tw{}", k), access: Access::RW, ..f.clone() });
+            f.access = [Access::R, Access::W, Access::RW, Access::None][(k + j) % 4];
+        }
+        l2.fields.extend(twins);
+        layouts.push(l2);
+    }
+    for (j, l) in sys_long_lists().into_iter().step_by(3).chain(sys_deep_nesting(false)).enumerate() {
+        let acc = [Access::R, Access::W, Access::RW, Access::None][j % 4];
+        let mut l2 = l.clone();
+        let mut twins = Vec::new();
+        for f in l2.fields.iter_mut() {
+            twins.push(Field { name: format!("{}t", f.name), access: Access::RW, ..f.clone() });
+            f.access = acc;
+        }
+        l2.fields.extend(twins);
+        layouts.push(l2);
     }
     let n_twin_layouts = layouts.len();
     // part 2: builder membership (no twins, builder must exist)
